@@ -68,6 +68,8 @@ pub struct StOrd(pub u32);
 #[derive(Event, Serialize, Deserialize, Clone)]
 pub struct SeUnrel(pub u32);
 #[derive(Event, Serialize, Deserialize, Clone)]
+pub struct SeProbe(pub u32);
+#[derive(Event, Serialize, Deserialize, Clone)]
 pub struct CeOrd(pub u32);
 #[derive(Event, Serialize, Deserialize, Clone, MapEntities)]
 pub struct CeMap(pub u32, #[entities] pub Entity);
@@ -121,6 +123,8 @@ fn log_events(app: &mut App) {
 pub struct Cfg {
     /// bit mask of clients built with a different protocol (one more replicated component)
     pub wrong: u32,
+    /// how those clients differ: 0 one more rule, 1 rules in another order, 2 another priority, 3 only the independence of an event
+    pub wrongkind: u32,
     /// C06 cases: client 0 is an attacker whose traffic is injected bytes
     pub junk: bool,
     pub events: bool,
@@ -144,7 +148,7 @@ impl Cfg {
             self.events as u8,
             self.dedicated as u8,
             if self.junk { " junk=1" } else { "" },
-            if self.wrong != 0 { format!(" wrong={}", self.wrong) } else { String::new() }
+            if self.wrong != 0 { format!(" wrong={}{}", self.wrong, if self.wrongkind != 0 { format!(" wrongkind={}", self.wrongkind) } else { String::new() }) } else { String::new() }
         )
     }
     fn parse(line: &str) -> Cfg {
@@ -155,6 +159,7 @@ impl Cfg {
         };
         Cfg {
             wrong: get("wrong").parse().unwrap_or(0),
+            wrongkind: get("wrongkind").parse().unwrap_or(0),
             junk: get("junk") == "1",
             events: get("events") == "1",
             dedicated: get("dedicated") == "1",
@@ -221,15 +226,26 @@ fn common(app: &mut App, cfg: &Cfg, is_server: bool, wrong: bool) {
     if cfg.sync {
         app.sync_related_entities::<ChildOf>();
     }
-    app.replicate::<A>()
-        .replicate::<B>()
-        .replicate_once::<O>()
+    // a client built from different code: its protocol hash differs
+    let kind = if wrong { cfg.wrongkind } else { 99 };
+    match kind {
+        1 => { app.replicate::<B>().replicate::<A>(); }
+        2 => { app.replicate_with_priority(5, RuleFns::<A>::default()).replicate::<B>(); }
+        _ => { app.replicate::<A>().replicate::<B>(); }
+    }
+    app.replicate_once::<O>()
         .replicate_periodic::<P>(PERIOD)
         .replicate::<R>()
         .replicate::<L>();
-    if wrong {
-        // a client built from different code: its protocol hash differs
+    if kind == 0 {
         app.replicate::<N>();
+    }
+    if cfg.auth == "check" && !cfg.events {
+        // an event nobody emits; client and server may disagree only about its independence
+        app.add_server_event::<SeProbe>(Channel::Ordered);
+        if kind != 3 {
+            app.make_event_independent::<SeProbe>();
+        }
     }
     if cfg.events {
         app.add_server_event::<SeOrd>(Channel::Ordered)
@@ -324,6 +340,11 @@ impl Sys {
             writeln!(out, "{line}").unwrap();
         }
         let us = |i: usize| -> usize { t[i].parse().unwrap() };
+        if self.server_panicked && !matches!(t[0], "flush" | "flushing" | "flushed" | "cframe" | "deliver" | "drop" | "sframe") {
+            // a server that panicked mid-system has lost the resources that system had taken out
+            writeln!(out, "= skip").unwrap();
+            return;
+        }
         match t[0] {
             "spawn" => {
                 let e = us(1);
@@ -448,6 +469,7 @@ impl Sys {
             "cspawn" => {
                 let (c, p) = (us(1), us(2));
                 let cl = &mut self.clients[c];
+                if cl.panicked { writeln!(out, "= skip").unwrap(); return; }
                 while cl.pre.len() <= p { cl.pre.push(None); }
                 let id = cl.app.world_mut().spawn(N(7)).id();
                 cl.pre[p] = Some(id);
@@ -456,6 +478,7 @@ impl Sys {
             "cdespawn" => {
                 let (c, p) = (us(1), us(2));
                 let cl = &mut self.clients[c];
+                if cl.panicked { writeln!(out, "= skip").unwrap(); return; }
                 match cl.pre.get(p).copied().flatten() {
                     Some(id) if cl.app.world().get_entity(id).is_ok() => {
                         cl.app.world_mut().entity_mut(id).despawn();
@@ -546,8 +569,11 @@ impl Sys {
                     Some(msg) => {
                         if t[0] == "deliver" {
                             if s2c {
-                                cl.app.world_mut().resource_mut::<RepliconClient>().insert_received(ch, msg.clone());
-                            } else if let Some(ce) = cl.server_side {
+                                // a client that panicked mid-system has lost the resources the system had taken out
+                                if !cl.panicked {
+                                    cl.app.world_mut().resource_mut::<RepliconClient>().insert_received(ch, msg.clone());
+                                }
+                            } else if let Some(ce) = cl.server_side.filter(|_| !self.server_panicked) {
                                 self.server.world_mut().resource_mut::<RepliconServer>().insert_received(ce, ch, msg.clone());
                             }
                         }
@@ -647,12 +673,12 @@ impl Sys {
                             // an entity the server does not know makes the event unsendable
                             let tg = mapped.unwrap_or_else(|| w.spawn(N(9)).id());
                             w.send_event(CeMap(id, tg));
-                            writeln!(out, "= ok mapped={}", mapped.is_some() as u8).unwrap();
+                            writeln!(out, "= ok mapped={} ce={}", mapped.is_some() as u8, tg.to_bits()).unwrap();
                         }
                         ("trig", Some(_)) => {
                             let tg = mapped.unwrap_or_else(|| w.spawn(N(9)).id());
                             w.client_trigger_targets(CtOrd(id), tg);
-                            writeln!(out, "= ok mapped={}", mapped.is_some() as u8).unwrap();
+                            writeln!(out, "= ok mapped={} ce={}", mapped.is_some() as u8, tg.to_bits()).unwrap();
                         }
                         _ => writeln!(out, "= skip").unwrap(),
                     }
@@ -897,6 +923,11 @@ impl Sys {
             rows.push((key, row));
         }
         rows.sort_by(|a, b| a.0.cmp(&b.0));
+        // which client entity stands for which server entity (events captured the client entity when they were emitted)
+        let cbits = if self.cfg.events {
+            let v: Vec<String> = map.iter().filter_map(|(s, ce)| self.idx_of(*s).map(|i| format!("{i}>{}", ce.to_bits()))).collect();
+            format!(" cbits={}", if v.is_empty() { "-".to_string() } else { v.join(",") })
+        } else { String::new() };
         let nrep = self.clients[c].app.world_mut().query_filtered::<Entity, With<Replicated>>().iter(self.clients[c].app.world()).count();
         let status = if self.clients[c].app.world().resource::<RepliconClient>().is_connected() { 1 } else { 0 };
         // `MutateTickReceived` events of this frame (tracking on)
@@ -914,7 +945,7 @@ impl Sys {
         };
         writeln!(
             out,
-            "= cli c={c} conn={status} upd={upd} mapok={} nrep={nrep}{mtr} ents={}",
+            "= cli c={c} conn={status} upd={upd} mapok={} nrep={nrep}{mtr}{cbits} ents={}",
             consistent as u8,
             if rows.is_empty() { "-".to_string() } else { rows.into_iter().map(|r| r.1).collect::<Vec<_>>().join("|") }
         )
@@ -954,18 +985,20 @@ pub fn generate(opts: &Opts, profile: &str, out: &mut Out) {
         let mut crng = rng.fork();
         if id % nshards != shard { continue; }
         let cfg = match profile {
-            "sys_vis" => Cfg { wrong: 0, junk: false, events: false, dedicated: false, whitelist: crng.chance(1, 2), clients: crng.range(1, 2) as usize, track: false, sync: false, auth: "none".into() },
-            "sys_split" => Cfg { wrong: 0, junk: false, events: false, dedicated: false, whitelist: false, clients: 1, track: crng.chance(1, 3), sync: crng.chance(2, 3), auth: "none".into() },
-            "sys_track" => Cfg { wrong: 0, junk: false, events: false, dedicated: false, whitelist: false, clients: 1, track: true, sync: crng.chance(1, 3), auth: "none".into() },
+            "sys_vis" => Cfg { wrong: 0, wrongkind: 0, junk: false, events: false, dedicated: false, whitelist: crng.chance(1, 2), clients: crng.range(1, 2) as usize, track: false, sync: false, auth: "none".into() },
+            "sys_split" => Cfg { wrong: 0, wrongkind: 0, junk: false, events: false, dedicated: false, whitelist: false, clients: 1, track: crng.chance(1, 3), sync: crng.chance(2, 3), auth: "none".into() },
+            "sys_track" => Cfg { wrong: 0, wrongkind: 0, junk: false, events: false, dedicated: false, whitelist: false, clients: 1, track: true, sync: crng.chance(1, 3), auth: "none".into() },
             "sys_auth" => {
                 let clients = crng.range(1, 3) as usize;
                 let auth: String = (*crng.pick(&["check", "check", "custom", "none"])).into();
                 // under the default protocol check some clients come from different code
                 let wrong = if auth == "check" && crng.chance(1, 2) { (crng.below(1 << clients) as u32).max(1) } else { 0 };
-                Cfg { wrong, junk: false, events: false, dedicated: false, whitelist: crng.chance(1, 3), clients, track: false, sync: false, auth }
+                let wrongkind = if wrong != 0 { crng.below(4) as u32 } else { 0 };
+                Cfg { wrong, wrongkind, junk: false, events: false, dedicated: false, whitelist: crng.chance(1, 3), clients, track: false, sync: false, auth }
             }
             "sys_junk" => Cfg {
                 wrong: 0,
+                wrongkind: 0,
                 junk: true,
                 events: true,
                 dedicated: crng.chance(1, 4),
@@ -978,6 +1011,7 @@ pub fn generate(opts: &Opts, profile: &str, out: &mut Out) {
             },
             "sys_evt" => Cfg {
                 wrong: 0,
+                wrongkind: 0,
                 junk: false,
                 events: true,
                 dedicated: crng.chance(1, 4),
@@ -989,6 +1023,7 @@ pub fn generate(opts: &Opts, profile: &str, out: &mut Out) {
             },
             _ => Cfg {
                 wrong: 0,
+                wrongkind: 0,
                 junk: false,
                 events: false,
                 dedicated: false,
@@ -1271,6 +1306,20 @@ impl Gen {
             self.step(format!("sev ord {id3} b"));
             self.step("sframe tick=1".into());
             return;
+        }
+        if self.rng.chance(1, 10) {
+            // one client frame that sends an event it cannot translate among events it can
+            let c = self.rng.below(nclients) as usize;
+            if let Some(e) = self.live() {
+                let (a, b, d) = (self.v(), self.v(), self.v());
+                let (k1, k2) = (*self.rng.pick(&["map", "trig"]), *self.rng.pick(&["map", "trig"]));
+                if self.rng.chance(1, 2) { self.step(format!("cev {c} {k1} {id} {e}")); }
+                self.step(format!("cev {c} {k2} {a} 9999"));
+                self.step(format!("cev {c} map {b} {e}"));
+                self.step(format!("cev {c} trig {d} {e}"));
+                self.step(format!("cframe {c}"));
+                return;
+            }
         }
         if self.rng.chance(3, 5) {
             let kind = *self.rng.pick(&["ord", "ord", "map", "ind", "trig", "unrel"]);
@@ -1564,12 +1613,14 @@ impl Gen {
                 89..=90 if profile == "sys" || profile == "sys_evt" || (profile == "sys_auth" && self.sys.cfg.auth != "check") => {
                     let c = self.rng.below(nclients as u64);
                     if self.sys.clients[c as usize].server_side.is_some() {
+                        let mut left_buffered = None;
                         if self.rng.chance(1, 2) {
                             // leave the session with a mutate message buffered on the client: a tick
                             // that mutates and spawns, of which only the mutations channel is delivered
                             if let Some(e) = self.live() {
                                 let v = self.v();
                                 self.step(format!("mut {e} A={v}"));
+                                left_buffered = Some(e);
                             }
                             self.spawn(profile);
                             self.step("sframe tick=1".into());
@@ -1579,7 +1630,32 @@ impl Gen {
                         self.step(format!("disconnect {c}"));
                         self.step("sframe tick=0".into());
                         self.step(format!("cframe {c}"));
-                        if self.rng.chance(1, 2) {
+                        if left_buffered.is_some() && self.rng.chance(1, 2) {
+                            // … come back at once; whatever the client acknowledges in its first frame reaches
+                            // the server only after the new session's first mutate message went out and was
+                            // lost; then another component of the same entity changes
+                            let e = left_buffered.unwrap();
+                            self.step(format!("connect {c}"));
+                            self.step("sframe tick=1".into());
+                            for ch in 0..self.sys.n_server_channels {
+                                while !self.sys.clients[c as usize].s2c[ch].is_empty() { self.step(format!("deliver {c} s2c {ch} 0")); }
+                            }
+                            self.step(format!("cframe {c}"));
+                            let v = self.v();
+                            self.step(format!("mut {e} A={v}"));
+                            self.step("sframe tick=1".into());
+                            while !self.sys.clients[c as usize].s2c[1].is_empty() { self.step(format!("drop {c} s2c 1 0")); }
+                            while !self.sys.clients[c as usize].c2s[0].is_empty() { self.step(format!("deliver {c} c2s 0 0")); }
+                            self.step("sframe tick=1".into());
+                            let v = self.v();
+                            self.step(format!("mut {e} B={v}"));
+                            for _ in 0..2 {
+                                self.step("sframe tick=1".into());
+                                self.network(0);
+                                self.step(format!("cframe {c}"));
+                                self.network(0);
+                            }
+                        } else if self.rng.chance(1, 2) {
                             // … and come back at once
                             self.step(format!("connect {c}"));
                             for _ in 0..2 {
@@ -1594,6 +1670,15 @@ impl Gen {
                     }
                 }
                 91 if profile == "sys" || profile == "sys_evt" => {
+                    if profile == "sys_evt" && self.rng.chance(1, 2) {
+                        // the server stops with events still buffered for the next tick
+                        for _ in 0..self.rng.range(1, 3) {
+                            let id = self.v();
+                            let kind = *self.rng.pick(&["ord", "ord", "ind", "unrel"]);
+                            self.step(format!("sev {kind} {id} b"));
+                        }
+                        self.step("sframe tick=0".into());
+                    }
                     self.step("stop".into());
                     self.step("sframe tick=0".into());
                     for c in 0..nclients { self.step(format!("cframe {c}")); }
